@@ -16,6 +16,10 @@ var ErrInvalidSemiOctets = errors.New("sms: invalid semi-octets")
 
 type Time struct{ time.Time }
 
+// negativeZone names the fixed zone of a time stamp whose zone sign bit is set,
+// so that a zone of minus zero quarter hours is written back with its sign.
+const negativeZone = "-"
+
 func (t *Time) ReadFrom(r io.Reader) (n int64, err error) {
 	data := make([]byte, 7)
 	if _, err = r.Read(data); err != nil {
@@ -26,6 +30,16 @@ func (t *Time) ReadFrom(r io.Reader) (n int64, err error) {
 		err = ErrInvalidSemiOctets
 		return
 	}
+	zone, name := blocks[6], ""
+	if data[6]&0b1000 != 0 {
+		// GSM 03.40 9.2.3.11: bit 3 of the zone octet is the algebraic sign, not part of the tens digit
+		if data[6]>>4 == 0b1111 {
+			zone -= 8
+		} else {
+			zone -= 80
+		}
+		zone, name = -zone, negativeZone
+	}
 	t.Time = time.Date(
 		2000+blocks[0],
 		time.Month(blocks[1]),
@@ -34,15 +48,20 @@ func (t *Time) ReadFrom(r io.Reader) (n int64, err error) {
 		blocks[4],
 		blocks[5],
 		0,
-		time.FixedZone("", blocks[6]*900),
+		time.FixedZone(name, zone*900),
 	)
 	return
 }
 
 func (t *Time) WriteTo(w io.Writer) (n int64, err error) {
-	_, offset := t.Time.Zone()
-	return semioctet.EncodeSemi(
-		w,
+	name, offset := t.Time.Zone()
+	negative := offset < 0 || offset == 0 && name == negativeZone
+	if offset < 0 {
+		offset = -offset
+	}
+	var buf bytes.Buffer
+	_, _ = semioctet.EncodeSemi(
+		&buf,
 		t.Time.Year()-2000,
 		int(t.Time.Month()),
 		t.Time.Day(),
@@ -51,6 +70,10 @@ func (t *Time) WriteTo(w io.Writer) (n int64, err error) {
 		t.Time.Second(),
 		offset/900,
 	)
+	if encoded := buf.Bytes(); negative && len(encoded) > 0 {
+		encoded[len(encoded)-1] |= 0b1000
+	}
+	return buf.WriteTo(w)
 }
 
 type Duration struct{ time.Duration }
